@@ -14,7 +14,29 @@ theorem Equiv.symm {ε σ : Type} {a b : GConn ε σ} (h : Equiv a b) : Equiv b 
   · refine Or.inr ⟨h2, h1, ?_, h4.symm, h5.symm⟩
     cases ha : a.verdict <;> cases hb : b.verdict <;> simp [ha, hb] at h3 ⊢
 
+/-- generic: from any connection state whose parser state satisfies the invariant, two delivery lists with the same
+    concatenation end alike -/
+theorem run_same_stream {ε σ : Type} {M : Sys ε σ} {Inv : σ → Prop} (L : M.Lawful Inv) (c : GConn ε σ) (hI : Inv c.st)
+    (d d' : Bytes) (ds ds' : List Bytes) (h : d ++ ds.flatten = d' ++ ds'.flatten) :
+    Equiv (M.run c (d :: ds)) (M.run c (d' :: ds')) := by
+  have h1 := run_flatten L c hI d ds
+  have h2 := run_flatten L c hI d' ds'
+  rw [h] at h1
+  exact Equiv.trans h1 (Equiv.symm h2)
+
 end Sys
+
+/-- C05: the chunked-body decoder on its own, empty deliveries included -/
+theorem C05_chunk_same_stream (d d' : Bytes) (ds ds' : List Bytes) (h : d ++ ds.flatten = d' ++ ds'.flatten) :
+    let c0 : GConn Fail ChunkState := { st := ChunkState.new, pending := [], total := 0, verdict := .more }
+    Sys.Equiv (chunkSys.run c0 (d :: ds)) (chunkSys.run c0 (d' :: ds')) :=
+  Sys.run_same_stream chunkSys_lawful _ trivial d d' ds ds' h
+
+theorem C05_chunk_empty_delivery (d : Bytes) (ds₁ ds₂ : List Bytes) :
+    let c0 : GConn Fail ChunkState := { st := ChunkState.new, pending := [], total := 0, verdict := .more }
+    Sys.Equiv (chunkSys.run c0 (d :: (ds₁ ++ [] :: ds₂))) (chunkSys.run c0 (d :: (ds₁ ++ ds₂))) := by
+  apply C05_chunk_same_stream
+  simp
 
 /-- C01: any two delivery lists with the same concatenation (both non-empty as lists) -/
 theorem C01_request_same_stream (u : UriImpl) (cfg : ReqCfg) (d d' : Bytes) (ds ds' : List Bytes)
